@@ -825,9 +825,21 @@ def main():
         for op in make_ops(cfg, clocks, opset):
             add(kind="nodedup", part="xcheck-nodedup:" + name, cfg=cfg, clocks=clocks, opset=opset, first=op, depth=depth,
                 cost=10 ** 8)
-    # heaviest shares first (balance); results are merged in plan order (simplest first)
-    order = sorted(items, key=lambda it: (-it["cost"], it["idx"]))
-    results = sorted(par.pmap(run_item, order), key=lambda r: r["idx"])
+    # Two phases: the broad part, the ramps and the cross-checks first; the deeper parts only when those are silent
+    # (a tree that already fails is reported after a third of the work).  Inside a phase: heaviest shares first
+    # (balance); results are merged in plan order (simplest first).
+    def first_phase(it):
+        return it["part"] in ("broad", "ramp") or it["part"].startswith("xcheck-")
+
+    order = sorted([it for it in items if first_phase(it)], key=lambda it: (-it["cost"], it["idx"]))
+    results = par.pmap(run_item, order)
+    skipped = 0
+    if rep.violations or any(r["violations"] for r in results):
+        skipped = len([it for it in items if not first_phase(it)])
+    else:
+        order = sorted([it for it in items if not first_phase(it)], key=lambda it: (-it["cost"], it["idx"]))
+        results += par.pmap(run_item, order)
+    results.sort(key=lambda r: r["idx"])
 
     agg = {}
     nt_sets = {}
@@ -885,7 +897,8 @@ def main():
         a["transitions"] += pre.get(p["name"], [0, 0])[1]
         rep.part(p["name"], what=p["what"], configurations=len(p["cfgs"]), clocks_ms=list(p["clocks"]), opset=p["opset"],
                  depth=p["depth"], alphabet_size=len(make_ops(p["cfgs"][0], p["clocks"], p["opset"])) if p["depth"] else 1,
-                 closed=a["unexpanded_at_bound"] == 0 and p["depth"] > 0, **a)
+                 executed=a.get("shares", 0) > 0,
+                 closed=a.get("shares", 0) > 0 and a["unexpanded_at_bound"] == 0 and p["depth"] > 0, **a)
         tot_s += a["states"]
         tot_t += a["transitions"]
         capped += a["shares_cut_by_violation_cap"]
@@ -901,7 +914,8 @@ def main():
     rep.set("rule", "distinct (part, configuration, state fingerprint) reached by an operation that wrote a frame, the frame "
                     "having been parsed against its format and compared with the emulator screen; ramp histories add one per "
                     "frame checked" + ("" if exact else "; shares above 200000 such states are summed, not united"))
-    rep.set("exhaustive", capped == 0)
+    rep.set("exhaustive", capped == 0 and skipped == 0)
+    rep.set("shares_skipped_after_first_phase_violations", skipped)
     rep.set("shares_cut_by_violation_cap", capped)
     rep.set("rotated_bar_width", EXTRA_WIDTHS[rep.seed % len(EXTRA_WIDTHS)])
     rep.set("closed", False)
